@@ -40,7 +40,7 @@ let run_lim (input : Sexp.t) (impl : Sexp.t) : Verdict.t =
   { Verdict.agree = (mouts = iouts); oracle = c03_lim_ok limit ops iouts; kf = "-";
     nontrivial = polled && (blocked || wrap);
     cls = Printf.sprintf "limit%d_%s%s" (min (int_of_n limit) 100) (if blocked then "blocked" else "free") (if wrap then "_wrap" else "");
-    model = Sexp.L (List.map (fun (r, u) -> Sexp.L [sx_pollres r; sx_n u]) mouts) }
+    model = Sexp.L (List.map (fun (r, u) -> Sexp.L [sx_pollres r; sx_n u]) mouts); why = "" }
 
 (* ---- alias ---- *)
 let amres_of_sx x = match Sexp.list x with
@@ -65,7 +65,7 @@ let run_alias (input : Sexp.t) (impl : Sexp.t) : Verdict.t =
     oracle = (int_of_n max = 0) || alias_ok max [] ts' iouts; kf = "-";
     nontrivial = reuse && evict;
     cls = Printf.sprintf "max%d_%s_%s" (min (int_of_n max) 6) (if reuse then "reuse" else "noreuse") (if evict then "evict" else "noevict");
-    model = Sexp.L (List.map sx_amres mouts) }
+    model = Sexp.L (List.map sx_amres mouts); why = "" }
 
 (* ---- unack ---- *)
 let uop_of_sx x = match Sexp.list x with
@@ -81,4 +81,4 @@ let run_unack (input : Sexp.t) (impl : Sexp.t) : Verdict.t =
   let dup = List.exists (fun x -> x = Some true) iouts in
   { Verdict.agree = (mouts = iouts); oracle = unack_ok ops iouts; kf = "-"; nontrivial = dup;
     cls = (if dup then "dup" else "nodup");
-    model = Sexp.L (List.map (fun x -> match x with None -> Sexp.A "none" | Some b -> sx_bool b) mouts) }
+    model = Sexp.L (List.map (fun x -> match x with None -> Sexp.A "none" | Some b -> sx_bool b) mouts); why = "" }
